@@ -32,6 +32,10 @@ func (b *vJSONBody) Read(p []byte) (int, error) {
 			b.r = strings.NewReader("x{not json")
 		case 1:
 			b.r = strings.NewReader(`{"other":1}`)
+		case 3:
+			b.r = strings.NewReader(`{"level":null}`)
+		case 4:
+			b.r = strings.NewReader(`{"level":5}`)
 		default:
 			b.r = strings.NewReader(`{"level":"` + b.level + `"}`)
 		}
@@ -152,7 +156,7 @@ func vHTTPRequests(n int) {
 				if vrt.Choice(id+".ct", 2) == 1 {
 					req.Header.Set("Content-Type", "application/json")
 				}
-				mode := vrt.Choice(id+".body", 3)
+				mode := vrt.Choice(id+".body", 5) // 0 malformed, 1 no level, 2 level text, 3 level null, 4 level number
 				body := &vJSONBody{mode: mode}
 				if mode == 2 {
 					body.level = vLevelText(id)
@@ -202,7 +206,7 @@ func vHTTPRequests(n int) {
 	vrt.Cover("done")
 }
 
-//verif: prop=C20 bounds="1 request against an AtomicLevel at any valid initial level shared with a live logger: method in {GET, PUT, POST, DELETE, PATCH}; PUT with a URL-encoded form (level absent or a text) or a JSON body (malformed, without level, or {level: text}; with or without the JSON content type) or another content type; text = a level name (either case of its first letter), a name with its last byte symbolic, a name plus one symbolic byte, or 0..2 symbolic bytes (printable ASCII). net/http form parsing and encoding/json tokenising are stubbed by contract"
+//verif: prop=C20 bounds="1 request against an AtomicLevel at any valid initial level shared with a live logger: method in {GET, PUT, POST, DELETE, PATCH}; PUT with a URL-encoded form (level absent or a text) or a JSON body (malformed, without level, {level: text}, {level: null} or {level: number}; with or without the JSON content type) or another content type; text = a level name (either case of its first letter), a name with its last byte symbolic, a name plus one symbolic byte, or 0..2 symbolic bytes (printable ASCII). net/http form parsing and encoding/json tokenising are stubbed by contract"
 func VC20HTTP1() { vHTTPRequests(1) }
 
 //verif: prop=C20 tier=thorough bounds="sequences of 2 requests (as VC20HTTP1)"
